@@ -7,6 +7,7 @@ from ..absint import TOP, Const, FuncRef, Interp, Obj, Tup, ClassRef
 from ..cfg import CFG
 from ..domains.frames import AXIS_NAMES, FramesDomain, Rot, RotVecV, Vec
 from ..repo import calls_in, dotted, norm_src, walk_no_nested
+from ..match import Matcher, src as msrc
 from .common import kwarg, need_funcs
 
 MC = "acryo/molecules/core.py::"
@@ -64,24 +65,19 @@ def axis_table_clause(model, rep, funcs):
     f = funcs.get(MC + "Molecules.local_coordinates")
     if f is not None:
         rep.instance("F.axes", f.loc())
-        pairs = []
-        for n in ast.walk(f.node):
-            if isinstance(n, ast.BinOp) and isinstance(n.op, ast.Mult):
-                l, r = norm_src(n.left), norm_src(n.right)
-                if "vec_" in l and r.startswith("ind_"):
-                    pairs.append((l.split("vec_")[1][0], r[4:]))
-        unp = [n for n in ast.walk(f.node) if isinstance(n, ast.Assign) and isinstance(n.targets[0], ast.Tuple) and
-               [norm_src(e) for e in n.targets[0].elts] == ["ind_z", "ind_y", "ind_x"]]
-        vz = [n for n in ast.walk(f.node) if isinstance(n, ast.Assign) and norm_src(n.targets[0]) == "vec_z"]
-        ok = sorted(pairs) == [("x", "x"), ("y", "y"), ("z", "z")] and len(unp) == 1 and "zip(shape, center)" in norm_src(unp[0].value) and \
-            len(vz) == 1 and norm_src(vz[0].value) == "cross(vec_x, vec_y)"
-        # placement of the three axes in the broadcast: z varies along array axis 1, y along 2, x along 3
-        bro = norm_src(f.node)
-        ok = ok and "z_ax[:, :, np.newaxis, np.newaxis] + y_ax[:, np.newaxis, :, np.newaxis] + x_ax[:, np.newaxis, np.newaxis, :]" in bro
-        cen = [n for n in ast.walk(f.node) if isinstance(n, ast.Assign) and norm_src(n.targets[0]) == "center"]
-        okc = bool(cen) and norm_src(cen[0].value) in ("[s / 2 - 0.5 for s in shape]", "[(s - 1) / 2 for s in shape]")
+        M = Matcher(f)
+        b: dict = {}
+        ok, why = M.all_of(["$ax = self.x.astype($$t)", "$ay = self.y.astype($$t)", "$vx = $ax[$i]", "$vy = $ay[$i]", "$vz = cross($vx, $vy)",
+                            "$iz, $iy, $ix = (np.arange($s, ...) - $c for $s, $c in zip(shape, $center))",
+                            "$xa = $vx[:, np.newaxis] * $ix", "$ya = $vy[:, np.newaxis] * $iy", "$za = $vz[:, np.newaxis] * $iz",
+                            # placement of the three axes in the broadcast: z varies along array axis 1, y along 2, x along 3
+                            "$za[:, :, np.newaxis, np.newaxis] + $ya[:, np.newaxis, :, np.newaxis] + $xa[:, np.newaxis, np.newaxis, :]"], b)
+        okc = False
+        if ok:
+            okc = M.has("$center = [$s2 / 2 - 0.5 for $s2 in shape]", b) or M.has("$center = [($s2 - 1) / 2 for $s2 in shape]", b)
+            why = "" if okc else "the grid is not centred at (shape - 1) / 2"
         rep.ob("F", f.anchor, "local sampling grid = pos/scale + sum_k axis_k * (index_k - (shape_k-1)/2) with indices paired z,y,x and broadcast on array axes 1,2,3",
-               ok and okc, f"pairs {pairs}; centre {norm_src(cen[0].value) if cen else None}", node=f.node, fn=f, clause="1 axis table", stmt="def local_coordinates")
+               bool(ok and okc), why, node=f.node, fn=f, clause="1 axis table", stmt="def local_coordinates")
     for a in (MC + "cross", "acryo/simulator.py::cross"):
         f = funcs.get(a)
         if f is None:
@@ -93,6 +89,11 @@ def axis_table_clause(model, rep, funcs):
             [norm_src(x) for x in rets[0].value.operand.args[:2]] == [p for p in f.param_names()[:2]]
         rep.ob("F", a, "cross product in z,y,x storage order is -np.cross(x, y) (right-handed: x cross y = z)", ok, norm_src(rets[0].value) if rets else "",
                node=f.node, fn=f, clause="1 axis table", stmt=f"def cross ({f.module.relpath})")
+
+
+def src_differs(b) -> bool:
+    """the two translation matrices are different variables"""
+    return b["t0"][0] != b["t1"][0]
 
 
 # --------------------------------------------------------------------------- clause 2: composition
@@ -152,12 +153,14 @@ def composition_clause(model, rep, funcs):
     f = funcs.get(MC + "Molecules.affine_matrix")
     if f is not None:
         rep.instance("F.compose", f.loc())
-        ifs = [n for n in walk_no_nested(f.node) if isinstance(n, ast.If) and norm_src(n.test) == "inverse"]
-        ok = len(ifs) == 1 and "self._rotator.inv().as_matrix()" in norm_src(ifs[0].body[0]) and "inv()" not in norm_src(ifs[0].orelse[0])
-        src = norm_src(f.node)
-        ok2 = "translation_0[:, :3, 3] = dst" in src and "translation_1[:, :3, 3] = -src" in src and \
-            "np.einsum('nij,njk,nkl->nil', translation_0, rot_mat, translation_1)" in src
-        rep.ob("F", f.anchor, "affine_matrix = T(dst) R T(-src) per molecule, with R inverted exactly when inverse=True", ok and ok2, "", node=f.node, fn=f,
+        M = Matcher(f)
+        b = {}
+        ok, why = M.all_of(["if inverse:\n    $mat = self._rotator.inv().as_matrix()\nelse:\n    $mat = self.matrix()",
+                            "$rm[:, :3, :3] = $mat", "$rm[:, 3, 3] = 1.0", "$rm = np.zeros(($n, 4, 4), ...)",
+                            "$t0 = np.stack([np.eye(4, ...)] * $n, axis=0)", "$t1 = np.stack([np.eye(4, ...)] * $n, axis=0)",
+                            "$t0[:, :3, 3] = dst", "$t1[:, :3, 3] = -src", "return np.einsum('nij,njk,nkl->nil', $t0, $rm, $t1)"], b)
+        ok2 = ok and src_differs(b)
+        rep.ob("F", f.anchor, "affine_matrix = T(dst) R T(-src) per molecule, with R inverted exactly when inverse=True", bool(ok and ok2), why, node=f.node, fn=f,
                clause="2 composition", stmt="def affine_matrix")
 
 
@@ -190,7 +193,8 @@ def euler_clause(model, rep, funcs):
     if f is not None:
         s = norm_src(f.node)
         rep.instance("TABLE.euler", f.loc())
-        ok = "if order == 'xyz':\n        rotator = from_euler_xyz_coords(angles, seq, degrees)" in s and "Rotation.from_euler(seq, angles, degrees)" in s
+        ok = Matcher(f).all_of(["if order == 'xyz':\n    $r = from_euler_xyz_coords(angles, seq, degrees)\nelif order == 'zyx':\n    $r = Rotation.from_euler(seq, angles, degrees)\nelse:\n    ...",
+                                "return cls(pos, $r, features)"])[0]
         rep.ob("TABLE", f.anchor, "from_euler dispatches 'xyz' to the translated reader and 'zyx' to scipy's convention directly", ok, "", node=f.node, fn=f,
                clause="3 euler", stmt="def from_euler")
 
@@ -278,16 +282,17 @@ def degenerate_clause(model, rep, funcs):
     det = "no Rotation.from_matrix"
     if fm:
         a = fm[0].args[0] if fm[0].args else None
-        ok = isinstance(a, ast.Call) and (dotted(a.func) or "").endswith("stack") and a.args and isinstance(a.args[0], ast.List) and \
-            [norm_src(e) for e in a.args[0].elts] == ["z0", "y0", "x0"] and norm_src(kwarg(a, "axis") or ast.Constant(None)) in ("2", "-1")
-        det = f"matrix = {norm_src(a)[:80] if a is not None else None}"
-        assigns = {norm_src(n.targets[0]): n.value for n in walk_no_nested(g.node) if isinstance(n, ast.Assign)}
-        x0 = assigns.get("x0")
-        okx = x0 is not None and norm_src(x0).replace(" ", "") in ("-np.cross(y0,z0,axis=1)", "np.cross(z0,y0,axis=1)")
+        MG = Matcher(g)
+        bb: dict = {}
+        ok, det = MG.all_of(["$y0 = _normalize(np.atleast_2d(y))", "$z0 = _normalize($z0)", "return Rotation.from_matrix(np.stack([$z0, $y0, $x0], axis=2))"], bb)
+        if not ok:
+            bb = {}
+            ok, det = MG.all_of(["$y0 = _normalize(np.atleast_2d(y))", "$z0 = _normalize($z0)", "return Rotation.from_matrix(np.stack([$z0, $y0, $x0], axis=-1))"], bb)
+        okx = bool(ok) and (MG.has("$x0 = -np.cross($y0, $z0, axis=1)", bb) or MG.has("$x0 = np.cross($z0, $y0, axis=1)", bb))
         branches = [n for n in walk_no_nested(g.node) if isinstance(n, ast.If) and ("np.all" in norm_src(n.test) or "np.any" in norm_src(n.test))]
-        orth = "_extract_orthogonal(y0" in s and s.count("_normalize(") >= 2
+        orth = bool(ok) and MG.count("$z0 = _extract_orthogonal($y0, $$v)", bb) >= 1
         ok = bool(ok and okx and not branches and orth)
-        det += f"; x0 = {norm_src(x0) if x0 is not None else None}; batch-level branches: {len(branches)}; z orthogonalised against y: {orth}"
+        det = (det + "; " if det else "") + f"matrix = {norm_src(a)[:80] if a is not None else None}; x = -cross(y, z): {okx}; batch-level branches: {len(branches)}; z orthogonalised against y: {orth}"
     rep.ob("S16", g.anchor, "the rotation is built row-wise from the matrix whose columns are the target z, y, x axes (x = -cross(y, z) in z,y,x order); "
            "no whole-batch special case", ok, det, node=g.node, fn=g, clause="5 degenerate axes", stmt="def axes_to_rotator matrix")
 
